@@ -219,6 +219,15 @@ def api_handles(fail):
     f.set_outputs(*f.inputs(), *f.inputs())
     g = m.define_function("g", [tys.Bool])
     check("call(f: Bool -> Bool, Bool)", g.call(f, *g.inputs()), 2)
+    # a function polymorphic over a row of types: the handle's count follows the instantiation, not the declared body
+    A = tys.TypeBound.Any
+    rowpoly = tys.PolyFuncType([tys.ListParam(tys.TypeTypeParam(A))], tys.FunctionType([tys.Bool], [tys.RowVariable(0, A)]))
+    for outs in ([], [tys.Bool], [tys.Bool, INT_T], [tys.Bool, tys.Bool, INT_T]):
+        m2 = Module()
+        fr = m2.declare_function("spread", rowpoly)
+        g2 = m2.define_main([tys.Bool])
+        c = g2.call(fr, *g2.inputs(), instantiation=tys.FunctionType([tys.Bool], outs), type_args=[tys.SequenceArg([t.type_arg() for t in outs])])
+        check(f"call of a row-polymorphic function instantiated with {len(outs)} outputs", c, len(outs))
     out["programs"] = out["evaluations"]
     return out
 
